@@ -1,6 +1,7 @@
 package main
 
 import (
+	cid "github.com/ipfs/go-cid"
 	"context"
 	"encoding/json"
 	"flag"
@@ -45,6 +46,7 @@ type stressScen struct {
 	IL       int64 `json:"il"`
 	OwnGC    bool  `json:"owngc"` // let the store's own collectors run with a 2 ms interval
 	Buckets  int   `json:"buckets"` // number of adjacent buckets the keys are spread over (default 4)
+	Cid      bool  `json:"cid"`   // CID primary (keys are CIDv1/raw of the same multihashes; no primary GC)
 	Gate     bool  `json:"gate"`  // every segment of a GC cycle between two yield points excludes foreground calls (closes the windows of the known findings KF-C06-*)
 }
 
@@ -78,12 +80,16 @@ type stressEv struct {
 }
 
 var stressBuckets = 4
+var stressCid = false
 
 func stressKey(i int) []byte {
 	// adjacent buckets, long shared prefixes inside a bucket
 	nb := stressBuckets
 	d := []byte{byte(40 + i%nb), 7, 7, byte(i / 64), 9, byte((i / nb) % 4), byte(i / 16), byte(i)}
 	m, _ := mh.Encode(d, mh.SHA2_256)
+	if stressCid {
+		return cid.NewCidV1(cid.Raw, m).Bytes()
+	}
 	return m
 }
 
@@ -108,6 +114,7 @@ func stressParse(k int, b []byte) int {
 func stressOne(dir string, tr *core.Tracer, sc *stressScen) error {
 	if sc.Buckets > 0 {
 		stressBuckets = sc.Buckets // all scenarios of one run use the same value
+		stressCid = sc.Cid
 	}
 	d, err := os.MkdirTemp(dir, "st")
 	if err != nil {
@@ -119,7 +126,11 @@ func stressOne(dir string, tr *core.Tracer, sc *stressScen) error {
 		gcInt = 2 * time.Millisecond
 	}
 	open := func() (*store.Store, error) {
-		return store.OpenStore(context.Background(), store.MultihashPrimary, filepath.Join(d, "data"), filepath.Join(d, "index"), false,
+		ptype := store.MultihashPrimary
+		if sc.Cid {
+			ptype = store.CIDPrimary
+		}
+		return store.OpenStore(context.Background(), ptype, filepath.Join(d, "data"), filepath.Join(d, "index"), false,
 			store.IndexBitSize(8), store.IndexFileSize(uint32(sc.IL)), store.PrimaryFileSize(uint32(sc.PL)),
 			store.GCInterval(gcInt), store.GCTimeLimit(time.Second), store.SyncInterval(time.Millisecond), store.FileCacheSize(8))
 	}
